@@ -841,28 +841,31 @@ func (vx *Vaxis) handleSequence(seq ansi.Sequence) {
 			vx.PostEventBlocking(FocusOut{})
 			return
 		case 'R':
-			// KeyF1 or DSRCPR
-			// This could be an F1 key, we need to buffer if we have
-			// requested a DSRCPR (cursor position report)
+			// KeyF3 or DSRCPR
+			// A cursor position report has two parameters (row and
+			// column), the legacy F3 key has none or 1;modifiers
 			//
 			// Kitty keyboard protocol disambiguates this scenario,
 			// hopefully people are using that
-			if atomicLoad(&vx.reqCursorPos) {
-				atomicStore(&vx.reqCursorPos, false)
-				if len(seq.Parameters) != 2 {
-					log.Error("not enough DSRCPR params")
+			if len(seq.Parameters) == 2 {
+				if atomicLoad(&vx.reqCursorPos) {
+					atomicStore(&vx.reqCursorPos, false)
+					// Never block the input loop: the requester
+					// may have timed out already
+					select {
+					case vx.chCursorPos <- [2]int{
+						seq.Parameters[0][0],
+						seq.Parameters[1][0],
+					}:
+					default:
+					}
 					return
 				}
-				// Never block the input loop: the requester may
-				// have timed out already
-				select {
-				case vx.chCursorPos <- [2]int{
-					seq.Parameters[0][0],
-					seq.Parameters[1][0],
-				}:
-				default:
+				if seq.Parameters[0][0] != 1 {
+					// Not an F3: a report which arrives after
+					// its request timed out
+					return
 				}
-				return
 			}
 		case 'S':
 			if len(seq.Intermediate) == 1 && seq.Intermediate[0] == '?' {
